@@ -114,6 +114,17 @@ def check_group(rep, M, L, inp):
                     red, _ = orc.info(w)
                     if dgeo.accepts(w) != red:
                         rep.fail("geodesic_accepts_iff_reduced", f"group given by a diagram on the nodes 0..{rank - 1}, word {w}: reduced={red}", {**inp, "word": list(w), "labels": "diagram nodes"}); return False
+        # the same diagram handed over as one-shot iterables (an iterator, a generator expression) and as a tuple
+        for pk_name, pk in (("iterator", lambda: iter(list(dia))), ("generator_expression", lambda: (e for e in dia)), ("tuple", lambda: tuple(dia))):
+            Gp = coxeter.CoxeterGroup(diagram=pk())
+            if sorted(Gp.ordered_gens) != list(range(rank)):
+                continue
+            gp = Gp.automaton(shortlex=False)
+            for n in range(0, min(L, 4) + 1):
+                for w in itertools.product(range(rank), repeat=n):
+                    red, _ = orc.info(w)
+                    if gp.accepts(w) != red:
+                        rep.fail("geodesic_accepts_iff_reduced", f"diagram given as {pk_name}, word {w}: reduced={red}", {**inp, "word": list(w), "diagram_packaging": pk_name}); return False
         # diagrams whose integer node nnames overlap 0..rank-1 without matching the positions (the automaton is generated over 0..rank-1 and then renamed)
         for nnames in ([[1, 0, 2], [1, 2, 3], [2, 0, 1], [2, 1, 0]] if rank == 3 else []) + ([[1, 0], [1, 2]] if rank == 2 else []):
             dia2 = [(nnames[i], nnames[j], M[i][j]) for i in range(rank) for j in range(i + 1, rank)]
